@@ -416,14 +416,28 @@ package bigslice
 // ---- C01: Fold accumulates every row of its shard, including a final batch that arrives with end-of-stream ----
 
 //@ func bigslice.(*foldReader).compute (ctx) (a, err)
-//@   requires f != nil && f.op != nil && f.reader != nil && defaultChunksize >= 1 && tyNumOut(f.op.dep.Slice) >= 1 && tyNumOut(f.op.out) >= 2
+//@   requires f != nil && f.op != nil && f.reader != nil && defaultChunksize >= 1 && tyNumOut(f.op.dep.Slice) >= 1 && tyNumOut(boxed(f.op.dep, slicetype.Type)) >= 1 && tyNumOut(f.op.out) >= 2 && tyOut(f.op.dep.Slice, 0) != nil
+//@   requires key-kind-has-an-accumulator: rtKind(tyOut(f.op.dep.Slice, 0)) == reflect.String || rtKind(tyOut(f.op.dep.Slice, 0)) == reflect.Int || rtKind(tyOut(f.op.dep.Slice, 0)) == reflect.Int64
 //@   may_panic
-//@   flag abstract_calls frame.Make
 //@   flag trust_nil_safety
 //@   ensures  every-row-accumulated: implies(err == nil, a != nil && accRows - old(accRows) == rowsSupplied - old(rowsSupplied) && f.reader.lastErr == sliceio.EOF)
 //@   ensures  upstream-error-returned: implies(err != nil, a == nil && err == f.reader.lastErr && err != sliceio.EOF)
+//@   ensures  clock-monotone: colClock >= old(colClock)
 //@   modifies accRows, userCalls, lastCallRvs, ColMem, colClock, SReader.nreads, SReader.lastN, SReader.lastErr, rowsSupplied, sawRowsWithEOF
-//@   loop 1 invariant accRows - old(accRows) == rowsSupplied - old(rowsSupplied) && accum != nil && f.reader == old(f.reader)
+//@   loop 1 invariant accRows - old(accRows) == rowsSupplied - old(rowsSupplied) && accum != nil && f.reader == old(f.reader) && colClock >= old(colClock) && wf(in) && len(in.data) >= 1 && forall(c, 0, len(in.data), in.off + in.len <= rvLen(in.data[c].val))
+
+// The fold reader computes its accumulator once, on the first read that gets that far, and from then on only drains
+// it: it never reads upstream again. Errors (upstream or type mismatch) are returned; upstream errors are sticky.
+//@ func bigslice.(*foldReader).Read (ctx, out) (n, err)
+//@   requires f != nil && f.op != nil && f.reader != nil && wf(out) && len(out.data) >= 2 && defaultChunksize >= 1 && tyNumOut(f.op.dep.Slice) >= 1 && tyNumOut(boxed(f.op.dep, slicetype.Type)) >= 1 && tyNumOut(f.op.out) >= 2 && tyOut(f.op.dep.Slice, 0) != nil
+//@   requires key-kind-has-an-accumulator: rtKind(tyOut(f.op.dep.Slice, 0)) == reflect.String || rtKind(tyOut(f.op.dep.Slice, 0)) == reflect.Int || rtKind(tyOut(f.op.dep.Slice, 0)) == reflect.Int64
+//@   may_panic
+//@   flag trust_nil_safety
+//@   ensures  sticky: implies(old(f.err) != nil, n == 0 && err == old(f.err) && rowsSupplied == old(rowsSupplied) && f.accum == old(f.accum))
+//@   ensures  computed-once: implies(old(f.accum) != nil, f.accum == old(f.accum) && rowsSupplied == old(rowsSupplied) && accRows == old(accRows))
+//@   ensures  all-rows-folded-before-any-output: implies(old(f.accum) == nil && f.accum != nil, accRows - old(accRows) == rowsSupplied - old(rowsSupplied) && f.reader.lastErr == sliceio.EOF)
+//@   ensures  upstream-error-returned: implies(old(f.err) == nil && old(f.accum) == nil && f.accum == nil && err != errTypeError, n == 0 && err == f.reader.lastErr && err != nil && f.err == err)
+//@   modifies f.accum, f.err, accRows, userCalls, lastCallRvs, ColMem, colClock, SReader.nreads, SReader.lastN, SReader.lastErr, rowsSupplied, sawRowsWithEOF
 
 // ---- C01: Fold's accumulators emit every accumulated key exactly once ----
 
@@ -455,3 +469,42 @@ package bigslice
 //@   ensures  only-removals: forall(k, int64, implies(has(s.state, k), old(has(s.state, k))))
 //@   modifies s.state[:], ColMem
 //@   loop 1 invariant 0 <= n && n <= max && len(s.state) == old(len(s.state)) - n && forall(k, int64, implies(has(s.state, k), old(has(s.state, k)))) && s.state == old(s.state)
+
+// Accumulate folds each of the n rows into the state with exactly one call of the user's fold function, never removes
+// a key, and afterwards holds a value for the key of every row it was given.
+//@ func bigslice.(*intAccumulator).Accumulate (in, n)
+//@   requires s != nil && s.state != nil && 0 <= n && n <= in.len && wf(in) && len(in.data) >= 1 && forall(c, 0, len(in.data), in.off + in.len <= rvLen(in.data[c].val))
+//@   may_panic
+//@   ensures  one-fold-call-per-row: userCalls == old(userCalls) + n
+//@   ensures  keys-only-added: forall(k, int, implies(old(has(s.state, k)), has(s.state, k)))
+//@   modifies s.state[:], userCalls, lastCallRvs, ColMem
+//@   loop 1 invariant 0 <= i && i <= n && userCalls == old(userCalls) + i && forall(k, int, implies(old(has(s.state, k)), has(s.state, k))) && s.state == old(s.state)
+//@   loop 2 invariant 1 <= j && s.state == old(s.state) && userCalls == old(userCalls) + i
+
+//@ func bigslice.(*stringAccumulator).Accumulate (in, n)
+//@   requires s != nil && s.state != nil && 0 <= n && n <= in.len && wf(in) && len(in.data) >= 1 && forall(c, 0, len(in.data), in.off + in.len <= rvLen(in.data[c].val))
+//@   may_panic
+//@   ensures  one-fold-call-per-row: userCalls == old(userCalls) + n
+//@   ensures  keys-only-added: forall(k, string, implies(old(has(s.state, k)), has(s.state, k)))
+//@   modifies s.state[:], userCalls, lastCallRvs, ColMem
+//@   loop 1 invariant 0 <= i && i <= n && userCalls == old(userCalls) + i && forall(k, string, implies(old(has(s.state, k)), has(s.state, k))) && s.state == old(s.state)
+//@   loop 2 invariant 1 <= j && s.state == old(s.state) && userCalls == old(userCalls) + i
+
+//@ func bigslice.(*int64Accumulator).Accumulate (in, n)
+//@   requires s != nil && s.state != nil && 0 <= n && n <= in.len && wf(in) && len(in.data) >= 1 && forall(c, 0, len(in.data), in.off + in.len <= rvLen(in.data[c].val))
+//@   may_panic
+//@   ensures  one-fold-call-per-row: userCalls == old(userCalls) + n
+//@   ensures  keys-only-added: forall(k, int64, implies(old(has(s.state, k)), has(s.state, k)))
+//@   modifies s.state[:], userCalls, lastCallRvs, ColMem
+//@   loop 1 invariant 0 <= i && i <= n && userCalls == old(userCalls) + i && forall(k, int64, implies(old(has(s.state, k)), has(s.state, k))) && s.state == old(s.state)
+//@   loop 2 invariant 1 <= j && s.state == old(s.state) && userCalls == old(userCalls) + i
+
+// makeAccumulator builds an empty accumulator of the key's kind around the given fold function, and nothing (nil) for
+// any other kind (canMakeAccumulatorForKey, above, accepts exactly the kinds for which it builds one).
+//@ func bigslice.makeAccumulator
+//@   requires keyType != nil
+//@   ensures  exactly-the-supported-kinds: (result != nil) == (rtKind(keyType) == reflect.String || rtKind(keyType) == reflect.Int || rtKind(keyType) == reflect.Int64)
+//@   ensures  int-keys: implies(rtKind(keyType) == reflect.Int, hastype(result, *intAccumulator) && unbox(result, *intAccumulator).state != nil && len(unbox(result, *intAccumulator).state) == 0 && unbox(result, *intAccumulator).fn == fn && unbox(result, *intAccumulator).accType == accType)
+//@   ensures  int64-keys: implies(rtKind(keyType) == reflect.Int64, hastype(result, *int64Accumulator) && unbox(result, *int64Accumulator).state != nil && len(unbox(result, *int64Accumulator).state) == 0 && unbox(result, *int64Accumulator).fn == fn && unbox(result, *int64Accumulator).accType == accType)
+//@   ensures  string-keys: implies(rtKind(keyType) == reflect.String, hastype(result, *stringAccumulator) && unbox(result, *stringAccumulator).state != nil && len(unbox(result, *stringAccumulator).state) == 0 && unbox(result, *stringAccumulator).fn == fn && unbox(result, *stringAccumulator).accType == accType)
+//@   modifies nothing
